@@ -480,7 +480,7 @@ def _jobs_for(prop, tier):
         return [j for j in jobs_option_below(tier) if j[1][3] == 'combinations'] + jobs_combinations(tier) + jobs_axis0(tier, 'combinations') + jobs_record_below(tier, ('combinations',))
     if prop == 'C03':
         return jobs_c03(tier) + jobs_option_reduce(tier) + jobs_axis(tier, ('reduce',)) + jobs_reduce_nonlocal(tier) + jobs_unmasked_passthrough(('reduce_next',)) + jobs_record_reduce(tier)
-    return {'C02': (lambda t: jobs_c02(t) + jobs_numpy_toregular(t) + jobs_regular_getitem_jagged(t) + jobs_list_asslice(t) + jobs_indexed_widths(t)), 'C03': jobs_c03, 'C04': (lambda t: jobs_c04(t) + jobs_numpy_toregular(t)), 'C06': (lambda t: jobs_c06(t) + jobs_axis(t, ('sort', 'argsort')) + jobs_numpy_sort(t) + jobs_sort_nonlocal(t) + jobs_option_sort(t) + jobs_option_sort_above(t) + jobs_option_argsort(t) + jobs_string_argsort(t) + jobs_unmasked_passthrough(('sort_next', 'argsort_next'))), 'C08': (lambda t: jobs_c08(t) + jobs_numpy(t) + jobs_numpy_types(t) + jobs_union(t) + jobs_reverse_merge(t) + jobs_record_merge(t) + jobs_list_merge(t) + [j for j in jobs_record_named(t) if j[0] is h_record_mergemany_named] + jobs_merge_union(t) + jobs_union_ops(t)), 'C17': (lambda t: jobs_c17(t) + jobs_record_keys(t) + jobs_record_key_at(t) + jobs_node_form(t) + jobs_numpy_form(t) + jobs_record_form(t) + jobs_node_type(t)), 'C12': (lambda t: jobs_numpy(t) + jobs_numpy_astype(t) + [(h_index_alloc, (), 900)] + [(h_axis0, (L_, 'combinations', n_, True), 900) for L_, n_ in ((1, 2), (2, 3), (1, 3), (0, 2))] + [j for j in jobs_numpy_getitem(t) if j[1][3] == 'array']), 'C10': (lambda t: jobs_c10(t) + [j for j in jobs_record_named(t) if j[0] is h_record_field_key] + jobs_project(t) + [j for j in jobs_option_below(t) if j[1][3] in ('getitem_field', 'getitem_fields')] + jobs_record_setitem(t) + jobs_record_key_at(t)), 'C05': jobs_c05, 'C09': jobs_c09}.get(prop, lambda t: [])(tier)
+    return {'C02': (lambda t: jobs_c02(t) + jobs_numpy_toregular(t) + jobs_regular_getitem_jagged(t) + jobs_list_asslice(t) + jobs_indexed_widths(t)), 'C03': jobs_c03, 'C04': (lambda t: jobs_c04(t) + jobs_numpy_toregular(t)), 'C06': (lambda t: jobs_c06(t) + jobs_axis(t, ('sort', 'argsort')) + jobs_numpy_sort(t) + jobs_sort_nonlocal(t) + jobs_option_sort(t) + jobs_option_sort_above(t) + jobs_option_argsort(t) + jobs_string_argsort(t) + jobs_unmasked_passthrough(('sort_next', 'argsort_next'))), 'C08': (lambda t: jobs_c08(t) + jobs_numpy(t) + jobs_numpy_types(t) + jobs_union(t) + jobs_reverse_merge(t) + jobs_record_merge(t) + jobs_list_merge(t) + [j for j in jobs_record_named(t) if j[0] is h_record_mergemany_named] + jobs_merge_union(t) + jobs_union_ops(t)), 'C17': (lambda t: jobs_c17(t) + jobs_record_keys(t) + jobs_record_key_at(t) + jobs_node_form(t) + jobs_numpy_form(t) + jobs_record_form(t) + jobs_node_type(t) + jobs_union_form(t)), 'C12': (lambda t: jobs_numpy(t) + jobs_numpy_astype(t) + [(h_index_alloc, (), 900)] + [(h_axis0, (L_, 'combinations', n_, True), 900) for L_, n_ in ((1, 2), (2, 3), (1, 3), (0, 2))] + [j for j in jobs_numpy_getitem(t) if j[1][3] == 'array']), 'C10': (lambda t: jobs_c10(t) + [j for j in jobs_record_named(t) if j[0] is h_record_field_key] + jobs_project(t) + [j for j in jobs_option_below(t) if j[1][3] in ('getitem_field', 'getitem_fields')] + jobs_record_setitem(t) + jobs_record_key_at(t)), 'C05': jobs_c05, 'C09': jobs_c09}.get(prop, lambda t: [])(tier)
 
 
 # ------------------------------------------------------------------------------------------------ C01: getitem_next of list nodes
@@ -5993,6 +5993,91 @@ def h_node_type(cls, variant=None):
 
 def jobs_node_type(tier):
     return [(h_node_type, (c,), 900) for c in TYPE_OF]
+
+
+@guard
+def h_union_form(width, ncontents):
+    """UnionArray8_<width>::form: a UnionForm whose tags are tagged i8, whose index tag names the real index width, and which holds, position
+    by position, what each content answers as its own form"""
+    T, bits, uns = WIDTHS[width]
+    nc = NodeCtx(['UNI', 'IA', 'IDX', 'CNT', 'UTL', 'KD', 'IDS', 'EA'], [], unwind=max(16, 6 * ncontents + 12))
+    BASE = 1 << 32
+    kk = z3.BitVec('k!', 64)
+    ptrs, lens = [nc.content0], [nc.lencontent]
+    nc.m.assume(nc.lencontent >= 1, nc.lencontent <= 2 ** 20)
+    for k in range(1, ncontents):
+        ln = nc.m.bv('lencontent_u%d' % k)
+        nc.m.assume(ln >= 1, ln <= 2 ** 20)
+        ptrs.append(nc.new_content_in(nc.m.mem, 'content_u%d' % k, ln, z3.Lambda([kk], kk + k * BASE), const=True)); lens.append(ln)
+    tags = [i % ncontents for i in range(ncontents + 1)]
+    this, idx = build_union8_64(nc, tags, ptrs, 'node', lens, width=width)
+    from .mharness import module_of as _mo
+    foffs, fsize, fal, ffields = _mo(SRC['UNI']).types.struct_layout('%"class.awkward::UnionForm"')
+    seen = []
+
+    def s_form(eng, fr, ins, st, name, argv):
+        sret, selfp, mat = argv
+        nm, info = nc.content_info(selfp, st, eng)
+        item = eng.new_record(st.mem, eng.fresh_name('contentform'), 16, tag='heap')
+        st.mem.o[item.obj].cells[item.off] = (Ptr('fakevt', 0), 8)
+        seen.append(dict(pc=st.pc, item=item, first=z3.Select(info['atoms'], BV(0))))
+        nc._ret(st, sret, item)
+        return None
+    nc.m.eng.stubs['vf$slot%d' % nc.slot('4formEb')] = s_form
+    nc.m.record('ret', {})
+    out = nc.m.call('_ZNK7awkward12UnionArrayOfIa%sE4formEb' % T, [Ptr('ret', 0), this, z3.BitVecVal(1, 1)])
+    obls = [('form does not raise', out.raised)]
+    res = out.mem.o['ret'].cells[0][0]
+    # field numbers: Form, tags (i32), index (i32), contents (vector)
+    itag = {'64': 4, '32': 2, 'U32': 3}[width]
+    for g, q in nodeh.ptr_cases(res):
+        g = z3.And(g, z3.Not(out.raised))
+        if q.obj is None:
+            obls.append(('a form is returned', g))
+            continue
+        o = out.mem.o[q.obj]
+        vp = [str(qq.obj) for gg, qq in nodeh.ptr_cases(o.cells[q.off][0]) if qq.obj is not None]
+        if not (vp and 'N7awkward9UnionFormE' in vp[0]):
+            obls.append(('the form is a UnionForm (%s)' % (vp[:1],), g))
+            continue
+        c = o.cells.get(q.off + foffs[1])
+        obls.append(('the tags tag is i8', z3.And(g, (c[0] != z3.BitVecVal(0, 32)) if c is not None else z3.BoolVal(True))))
+        c = o.cells.get(q.off + foffs[2])
+        obls.append(('the index tag is %s' % INDEX_FORM_NAMES[itag], z3.And(g, (c[0] != z3.BitVecVal(itag, 32)) if c is not None else z3.BoolVal(True))))
+        b, e = o.cells.get(q.off + foffs[3]), o.cells.get(q.off + foffs[3] + 8)
+        bc = [qq for gg, qq in nodeh.ptr_cases(b[0]) if qq.obj is not None] if b else []
+        ec = [qq for gg, qq in nodeh.ptr_cases(e[0]) if qq.obj is not None] if e else []
+        if not bc or not ec or not isinstance(bc[0].off, int) or not isinstance(ec[0].off, int):
+            obls.append(('the content forms can be read back', g))
+            continue
+        obls.append(('%d content forms' % ncontents, z3.And(g, z3.BoolVal(ec[0].off - bc[0].off != 16 * ncontents))))
+        vo = out.mem.o[bc[0].obj]
+        for k in range(min(ncontents, (ec[0].off - bc[0].off) // 16)):
+            c = vo.cells.get(bc[0].off + 16 * k)
+            answered = [z3.And(ob['pc'], gg, ob['first'] == BV(k * BASE)) for ob in seen for gg, qq in (nodeh.ptr_cases(c[0]) if c else []) if qq.obj == ob['item'].obj]
+            obls.append(('content form %d is what content %d answered' % (k, k), z3.And(g, z3.Not(z3.Or(answered + [z3.BoolVal(False)])))))
+
+    def replay(model, ent):
+        prog = ''.join(('i64 2 %d %d ' % (10 * k, 10 * k + 1)) if k % 2 == 0 else 'f64 2 0.5 1.5 ' for k in range(ncontents))
+        prog += 'union8_%s %d %s %s %d formjson' % (width, len(tags), ' '.join(map(str, tags)), ' '.join('0' for _ in tags), ncontents)
+        kind_, got = fullnative.akrun(prog)
+        payload = dict(program=prog, native=[kind_, got])
+        prim = lambda f: f if isinstance(f, str) else (f.get('primitive') if isinstance(f, dict) else None)
+        want = ['int64' if k % 2 == 0 else 'float64' for k in range(ncontents)]
+        ok = kind_ == 'OK' and isinstance(got, dict) and got.get('class') == 'UnionArray8_%s' % width and got.get('tags') == 'i8' and got.get('index') == INDEX_FORM_NAMES[itag] \
+            and isinstance(got.get('contents'), list) and [prim(x) for x in got['contents']] == want
+        if not ok:
+            return True, 'form of a UnionArray8_%s of %s: native library %s %s' % (width, want, kind_, str(got)[:240]), payload
+        return False, 'native form agrees (%s)' % str(got)[:80], payload
+    return mdischarge(nc.m, 'UnionArray8_%s::form %d contents' % (width, ncontents), obls, [], replay=replay,
+                      extra=dict(bounds='index width and number of contents concrete (case split); every content answers with an opaque Form object'))
+
+
+def jobs_union_form(tier):
+    q = [('64', 2), ('32', 3), ('U32', 2)]
+    if tier != 'quick':
+        q += [('64', 1), ('64', 3), ('32', 2)]
+    return [(h_union_form, a, 900) for a in q]
 
 
 def jobs_record_keys(tier):
